@@ -28,16 +28,17 @@ type SV struct {
 }
 
 type evalEnv struct {
-	e       *Enc
-	pkg     *types.Package
-	st      *State
-	old     *State
-	vars    map[string]SV
-	oldVars map[string]SV
-	bound   map[string]SV
-	fn      *ssa.Function
-	depth   int
-	self    SV // for type contracts: the function value being called
+	e        *Enc
+	pkg      *types.Package
+	st       *State
+	old      *State
+	vars     map[string]SV
+	oldVars  map[string]SV
+	bound    map[string]SV
+	fn       *ssa.Function
+	depth    int
+	self     SV                    // for type contracts: the function value being called
+	typeVars map[string]types.Type // type parameters of a generic contract target bound to the instantiation
 }
 
 func (env *evalEnv) clone() *evalEnv {
@@ -210,6 +211,9 @@ func (env *evalEnv) ident(v *ast.Ident) SV {
 	if sv, ok := env.vars[v.Name]; ok {
 		return sv
 	}
+	if t, ok := env.typeVars[v.Name]; ok {
+		return SV{tname: t}
+	}
 	switch v.Name {
 	case "true":
 		return SV{t: tb.True(), typ: types.Typ[types.Bool]}
@@ -233,6 +237,12 @@ func (env *evalEnv) ident(v *ast.Ident) SV {
 			if imp.Name() == v.Name {
 				return SV{pkg: imp}
 			}
+		}
+	}
+	// any package of the repository by name (contracts may name types of packages the code does not import)
+	for _, p := range e.L.pkgs {
+		if p.Name == v.Name && p.Types != nil {
+			return SV{pkg: p.Types}
 		}
 	}
 	if obj := types.Universe.Lookup(v.Name); obj != nil {
@@ -606,6 +616,17 @@ func (env *evalEnv) call(v *ast.CallExpr) SV {
 				r = tb.SRef(a.t)
 			}
 			return SV{t: tb.Gt(r, tb.Int(0)), typ: boolT}
+		case "nonnil":
+			a := env.eval(v.Args[0])
+			switch {
+			case a.t.sort == "Iface":
+				return SV{t: tb.Not(tb.Eq(a.t, tb.NilIface())), typ: boolT}
+			case a.t.sort == "Fn":
+				return SV{t: tb.Not(tb.Eq(a.t, tb.Const("nilFn", "Fn"))), typ: boolT}
+			case a.t.sort == RefSort && a.typ != nil && isRefType(a.typ):
+				return SV{t: tb.Not(tb.Eq(a.t, tb.Int(0))), typ: boolT}
+			}
+			return SV{t: tb.True(), typ: boolT}
 		case "floor":
 			a := env.eval(v.Args[0])
 			return SV{t: tb.ToReal(tb.ToInt(a.t)), typ: types.Typ[types.Float64]}
@@ -810,4 +831,12 @@ func isXMLNameLit(s string) bool {
 		return false
 	}
 	return true
+}
+
+func isRefType(t types.Type) bool {
+	switch t.Underlying().(type) {
+	case *types.Pointer, *types.Map, *types.Chan:
+		return true
+	}
+	return false
 }
